@@ -1304,5 +1304,47 @@ class ModelHistories(Unit):
         rec.trace()
 
 
+class SupportScalar(Unit):
+    name = "support-scalar"
+    chunk = 16
+    rule = ("supportScalar(location, support): EVERY (start, peak, end) triple over the quarter lattice of [-1, 1] - well formed or not (start > peak, peak > end, regions that straddle zero with a non-zero peak, "
+            "peak 0) - x every coordinate on the eighth lattice of [-5/4, 5/4], on one axis and as the second axis of a two-axis support, ot=True: equals the per-axis rule of the OpenType variations "
+            "overview (exact rationals); distinct = each triple")
+    required_witnesses = ("well-formed tent", "region straddling zero with a non-zero peak is ignored", "out-of-order region is ignored", "peak 0")
+
+    def cases(self, tier, seed):
+        q = [F(i, 4) for i in range(-4, 5)]
+        for start in q:
+            for peak in q:
+                for end in q:
+                    yield [str(start), str(peak), str(end)]
+
+    def check(self, case, rec):
+        start, peak, end = (F(x) for x in case)
+        rec.nontrivial()
+        if start > peak or peak > end:
+            rec.witness("out-of-order region is ignored")
+        elif start < 0 and end > 0 and peak != 0:
+            rec.witness("region straddling zero with a non-zero peak is ignored")
+        elif peak == 0:
+            rec.witness("peak 0")
+        else:
+            rec.witness("well-formed tent")
+        n = 0
+        for h in range(-10, 11):
+            v = F(h, 8)
+            n += 1
+            exp = R.axis_scalar(v, start, peak, end)
+            got = M.supportScalar({"wght": float(v)}, {"wght": (float(start), float(peak), float(end))})
+            if abs(float(exp) - got) > 1e-12:
+                rec.violation("supportScalar:one-axis", "supportScalar(wght=%s, (%s, %s, %s)) = %r, the specification gives %s" % (v, start, peak, end, got, exp))
+            # as the second axis next to a plain tent at its peak / half way
+            for other, oexp in ((F(1), F(1)), (F(1, 2), F(1, 2))):
+                got2 = M.supportScalar({"wdth": float(other), "wght": float(v)}, {"wdth": (0.0, 1.0, 1.0), "wght": (float(start), float(peak), float(end))})
+                if abs(float(exp * oexp) - got2) > 1e-12:
+                    rec.violation("supportScalar:two-axes", "supportScalar(wdth=%s, wght=%s, wght region (%s, %s, %s)) = %r, the specification gives %s" % (other, v, start, peak, end, got2, exp * oexp))
+        rec.evals(3 * n - 1)
+
+
 def units():
-    return [Models1(), Models2(), Models3(), Normalize(), Renormalize(), Solver(), StoreHistories(), MultiStoreHistories(), Iup(), ModelHistories()]
+    return [Models1(), Models2(), Models3(), Normalize(), Renormalize(), Solver(), StoreHistories(), MultiStoreHistories(), Iup(), ModelHistories(), SupportScalar()]
